@@ -104,10 +104,31 @@ def strip_comments(text):
     return ''.join(out)
 
 
-def hygiene():
-    """scan the whole development for forbidden constructs; returns list of 'file:line: text'"""
+def coq_cone(rel):
+    """files of this development that coq/<rel> transitively requires (itself included)"""
+    seen, todo = [], [rel]
+    while todo:
+        r = todo.pop()
+        if r in seen or not os.path.exists(os.path.join(COQ, r)):
+            continue
+        seen.append(r)
+        txt = strip_comments(open(os.path.join(COQ, r)).read())
+        for m in re.finditer(r'(?:From\s+RJ\s+)?Require\s+(?:Import\s+|Export\s+)?([^.]*(?:\.[A-Za-z_][^.\s]*)*)\s*\.(?:\s|$)', txt):
+            for name in m.group(1).split():
+                name = name.strip()
+                if name.startswith('RJ.'):
+                    name = name[3:]
+                parts = name.split('.')
+                if len(parts) == 2 and parts[0] in ('Base', 'Model', 'Proofs', 'Gen', 'Props', 'Extract'):
+                    todo.append('%s/%s.v' % (parts[0], parts[1]))
+    return seen
+
+
+def hygiene(files=None):
+    """scan the given files (default: the whole development) for forbidden constructs;
+    returns list of 'file:line: text'"""
     bad = []
-    for rel in coq_files():
+    for rel in (files if files is not None else coq_files()):
         txt = strip_comments(open(os.path.join(COQ, rel)).read())
         depth = 0
         for ln, line in enumerate(txt.split('\n'), 1):
@@ -158,7 +179,7 @@ def prove(prop_id, theorems, allowed_axioms=()):
     if not os.path.exists(props_v):
         res['failed'] = ['Props/%s.v missing' % prop_id]
         return res
-    bad = hygiene()
+    bad = hygiene(coq_cone('Props/%s.v' % prop_id))
     if bad:
         res['failed'] = ['hygiene: ' + b for b in bad[:10]]
         res['log'] = '\n'.join(bad)
